@@ -12,11 +12,73 @@ import common
 from common import Run, Infra
 
 
+def l2_quadrature(run, rng, quick):
+    """conclusion of `nested_truncation` on real sweeps: compress a canonical chain, record in every `_update_ms` call the
+    singular values beyond `m_trunc`; the dense squared distance must equal the sum of the locally discarded squared
+    singular values (exactly, up to rounding), the norm must not grow, and every local error is <= the total."""
+    import lib_chain as lc
+    from renormalizer.mps.mp import MatrixProduct
+    from renormalizer.utils import CompressConfig, CompressCriteria
+    rec = []
+    orig = MatrixProduct._update_ms
+
+    def wrapped(self, idx, u, vt, sigma=None, qnlset=None, qnrset=None, m_trunc=None):
+        if sigma is not None and m_trunc is not None:
+            sg = np.sort(np.abs(np.asarray(sigma, dtype=float)))[::-1]
+            rec.append(float(np.sum(sg[int(m_trunc):] ** 2)))
+        return orig(self, idx, u, vt, sigma, qnlset, qnrset, m_trunc)
+    done = 0
+    for _ in range(25 if quick else 250):
+        nsite = int(rng.integers(3, 8))
+        spec = lc.random_model_spec(rng, nsite, qn_size=1 if rng.random() < 0.7 else 2, max_d=3, neutral=bool(rng.random() < 0.4))
+        model = lc.build_model(spec)
+        kind = str(rng.choice(["mps", "mps", "mpdm"]))
+        mp = lc.random_chain(rng, model, kind, max_bond=8, p_one=0.0, cplx=bool(rng.random() < 0.5), p_dead=0.0)
+        if mp is None:
+            continue
+        try:
+            mp.move_qnidx(mp.site_num - 1)
+            mp.to_right = False
+            mp.canonicalise()              # -> right-canonical, centre at site 0, to_right True
+            if rng.random() < 0.5:
+                mp.canonicalise()          # -> left-canonical, centre at the last site
+            psi0 = lc.dense_state(mp) if kind == "mps" else np.asarray(mp.todense())
+            psi0 = np.asarray(psi0).ravel() * complex(getattr(mp, "coeff", 1.0))
+            m = int(rng.integers(1, 3))
+            mp.compress_config = CompressConfig(CompressCriteria.fixed, max_bonddim=m)
+            MatrixProduct._update_ms = wrapped
+            del rec[:]
+            try:
+                out = mp.copy().compress()
+            finally:
+                MatrixProduct._update_ms = orig
+            psi1 = lc.dense_state(out) if kind == "mps" else np.asarray(out.todense())
+            psi1 = np.asarray(psi1).ravel() * complex(getattr(out, "coeff", 1.0))
+        except Exception as e:  # noqa
+            MatrixProduct._update_ms = orig
+            run.count("quadrature-raised:" + type(e).__name__)
+            continue
+        done += 1
+        n0 = float(np.linalg.norm(psi0)) ** 2
+        d2 = float(np.linalg.norm(psi0 - psi1)) ** 2
+        loc = list(rec)
+        run.count(f"quadrature:{kind}:truncating={sum(1 for x in loc if x > 1e-14 * n0)}")
+        tol = 1e-9 * max(n0, 1e-300)
+        case = dict(kind=kind, chain=lc.dump_chain(mp), max_bonddim=m, local_discarded_weights=loc, squared_distance=d2, squared_norm=n0)
+        if abs(d2 - sum(loc)) > tol:
+            run.violation(f"compress:{kind}:distance-not-root-sum-square-of-local-discarded-weights",
+                          dict(case, what="on a canonical chain ||psi - compress(psi)||^2 must equal the sum of the locally discarded squared singular values "
+                                          "(RenoVerif.Trunc.nested_truncation)"))
+        if float(np.linalg.norm(psi1)) ** 2 > n0 * (1 + 1e-9):
+            run.violation(f"compress:{kind}:norm-grows", case)
+    return done
+
+
 def main():
     run = Run("C05", level="proof")
     quick = run.tier != "thorough"
     rng = np.random.default_rng(run.seed)
-    l1 = run.l1(["RenoVerif/Props/C05.lean"])
+    l1 = run.l1(["RenoVerif/Props/C05.lean", "RenoVerif/Props/C05Nested.lean"])
     if not l1["build_ok"]:
         raise Infra("hand-written Lean library failed to build/audit: " + str(l1.get("bad")) + l1.get("log", "")[-800:])
     from renormalizer.utils import CompressConfig, CompressCriteria
@@ -74,6 +136,7 @@ def main():
                    borderline_skipped=skipped,
                    rule="random dyadic spectra (flat, geometric, with zeros, generic; length 1-6) x thresholds x per-bond limits x three criteria "
                         "x bond index x direction; distinct = distinct request")
+    run.cov["quadrature_cases"] = l2_quadrature(run, rng, quick)
     try:
         import search_c05
     except ImportError:
@@ -87,7 +150,8 @@ def main():
             run.cov["evaluations"] = ev0 + run.cov["search_evaluations"]
             run.cov["distinct_nontrivial"] = dn0 + run.cov.get("distinct_nontrivial", 0)
     run.assumptions += ["threshold decision modelled in squared form; spectra within 1e-9 of the boundary are excluded and counted",
-                        "multi-bond error bounds (root-sum-square upper bound, Eckart-Young lower bound) are measured, not proved"]
+                        "multi-bond error: root-sum-square of the LOCALLY discarded weights is proved (nested projections) and checked on real sweeps; that these are bounded by "
+                        "the original state's discarded weights at the same bonds, and the Eckart-Young lower bound, are measured, not proved"]
     return run.finish()
 
 
